@@ -9,7 +9,17 @@
    together with everything the harness can then observe:
 
      Send(s)         feed one SEND; res.r = ok / closed (refused: queue full or draining);
-                     res.started = the batch the idle worker entered the handler with
+                     res.started = the batch the idle worker entered the handler with.
+                     ch = the channel the SEND is addressed to (an index into the harness's
+                     channel table, which is in DESCENDING (type, id) order): pure input, no
+                     C28 formula and no reply depends on it -- SENDACKs follow the SEND order
+                     whatever the channels are.  Mostly (n-1) % NChan + 1, so that consecutive
+                     SENDs of a session go to different channels in reverse sort order.
+     SendBegin(s)    (Admission = "parked" only; the harness needs a session object whose ID()
+                     can block) feed one SEND and hold the feeding goroutine inside
+                     sendExecutor.submit, between the admission fence and the capacity
+                     reservation; res.parked = FALSE if it was refused before (draining)
+     SendEnd(s)      let that feed continue: res.r / res.started as for Send
      Release(order)  the parked handler call produces the results of the batch positions in
                      `order` (any order, possibly not all = the call fails afterwards); the
                      writer flushes SENDACKs from the head of each session; res.acks = the
@@ -22,7 +32,7 @@
      DrainStart      DrainSends with an expired context, then a waiter with a live one;
                      st.drained tells whether the waiter has returned *)
 EXTENDS GatewaySession, Json
-CONSTANT Depth
+CONSTANTS Depth, NChan
 VARIABLE hist
 
 X == "all"
@@ -36,14 +46,37 @@ AutoDispatch(t) == IF t.disp[X] = <<>> /\ t.doomed[X] = {} /\ t.queue[X] # <<>>
                      THEN DoDispatch(t, X, Min2(Len(t.queue[X]), cfg.bmax)) ELSE t
 AutoDrain(t)    == IF CanDrainDone(t) THEN DoDrainDone(t) ELSE t
 
+ChanOf(n) == IF RandomElement(1..3) = 1 THEN RandomElement(1..NChan) ELSE ((n - 1) % NChan) + 1
+
 MSend(s) ==
   /\ CanFeed(st, s)
   /\ LET adm == CanAdmit(st, s)
          t1  == IF adm THEN DoAdmit(st, s) ELSE DoReject(st, s)
          t2  == AutoDispatch(t1)
      IN /\ st' = t2
-        /\ ev' = [a |-> "Send", s |-> s, n |-> st.h.nrecv[s] + 1,
+        /\ ev' = [a |-> "Send", s |-> s, n |-> st.h.nrecv[s] + 1, ch |-> ChanOf(st.h.nrecv[s] + 1),
                   res |-> [r |-> IF adm THEN "ok" ELSE "closed",
+                           started |-> IF t2.disp[X] # st.disp[X] THEN t2.disp[X] ELSE <<>>]]
+
+\* the feed is held inside submit (the code as written: already registered with the drain)
+MSendBegin(s) ==
+  /\ Admission = "parked"
+  /\ CanFeed(st, s)
+  /\ LET n == st.h.nrecv[s] + 1 IN
+     IF st.draining
+       THEN /\ st' = DoReject(st, s)
+            /\ ev' = [a |-> "SendBegin", s |-> s, n |-> n, ch |-> ChanOf(n), res |-> [parked |-> FALSE, r |-> "closed"]]
+       ELSE /\ st' = DoFeedBegin(st, s)
+            /\ ev' = [a |-> "SendBegin", s |-> s, n |-> n, ch |-> ChanOf(n), res |-> [parked |-> TRUE, r |-> "-"]]
+
+MSendEnd(s) ==
+  /\ st.adm[s] # "idle"
+  /\ LET t1 == DoFeedEnd(st, s)
+         t2 == AutoDispatch(t1)
+         t3 == AutoDrain(t2)
+     IN /\ st' = t3
+        /\ ev' = [a |-> "SendEnd", s |-> s, n |-> st.h.nrecv[s],
+                  res |-> [r |-> FeedEndRes(st, s),
                            started |-> IF t2.disp[X] # st.disp[X] THEN t2.disp[X] ELSE <<>>]]
 
 RECURSIVE Flush(_, _)
@@ -82,7 +115,7 @@ MClose(s) == CanClose(st, s) /\ st' = DoClose(st, s) /\ ev' = [a |-> "Close", s 
 
 MPush(s, i) ==
   /\ CanIssue(st, s, i)
-  /\ i = "q" => ~st.h.closed[s]
+  /\ i = "q" => ~st.h.closed[s] /\ st.adm[s] = "idle"   \* the PING travels on the read path
   /\ LET t1 == DoIssue(st, s, i)
          ok == ~st.h.closed[s]
          t2 == IF ok THEN DoIssueDone(DoPushWrite(t1, s, i), s, i) ELSE DoIssueDone(t1, s, i)
@@ -97,6 +130,7 @@ SimInit == Init /\ cfg.scap = cfg.cap /\ hist = << [ev |-> ev, st |-> SimProj(st
 
 Feedable == {s \in Sessions : CanFeed(st, s)}
 InBatch  == {st.disp[X][j].s : j \in 1..Len(st.disp[X])}
+InAdm    == {s \in Sessions : st.adm[s] # "idle"}
 None     == "-"
 PickOr(S) == IF S = {} THEN {None} ELSE Pick(S)
 Full2(n)  == {o \in Orders(n) : Len(o) = n}
@@ -120,9 +154,17 @@ SimStep ==
      \/ RandomElement(1..12) = 1 /\ MDrainStart
      \* aimed: saturation -- feed a session while the queue is full
      \/ Queued(st) >= cfg.cap /\ \E s \in PickOr(Feedable) : s # None /\ MSend(s)
+     \* Admission = "parked": hold a feed inside submit, let it go on later
+     \/ Admission = "parked" /\ \E s \in PickOr(Feedable) : s # None /\ MSendBegin(s)
+     \/ Admission = "parked" /\ ~st.draining /\ \E s \in PickOr(Feedable) : s # None /\ MSendBegin(s)
+     \/ \E s \in PickOr(InAdm) : s # None /\ MSendEnd(s)
+     \* aimed (the counterexample of MC_split.cfg: FeedBegin, DrainStart, DrainWaitDone, FeedEnd,
+     \* DispatchBatch): the drain starts while a feed is inside submit, then the feed goes on
+     \/ InAdm # {} /\ MDrainStart
+     \/ InAdm # {} /\ st.draining /\ \E s \in PickOr(InAdm) : s # None /\ MSendEnd(s)
      \* keeps a behaviour alive to Depth when nothing else is possible (ignored by the harness)
      \/ RandomElement(1..4) = 1 /\ st' = st /\ ev' = [a |-> "Nop"]
-     \/ (Feedable = {} /\ st.disp[X] = <<>>) /\ st' = st /\ ev' = [a |-> "Nop"]
+     \/ (Feedable = {} /\ InAdm = {} /\ st.disp[X] = <<>>) /\ st' = st /\ ev' = [a |-> "Nop"]
 SimNext == SimStep /\ hist' = Append(hist, [ev |-> ev', st |-> SimProj(st')])
 Emit    == Len(hist) = Depth + 1 => PrintT("BEH " \o ToJson([steps |-> hist]))
 ===============================================================================
